@@ -704,6 +704,24 @@ pub fn run(tier: &str, seed: u64) -> i32 {
             }
         }
     }
+    // coincident instantiations (C14 is not restricted to coincidence-free registries): the unused parameter's
+    // argument has the same type id as a concretely written field
+    {
+        use crate::families::*;
+        for form in [BodyForm::Named, BodyForm::Unnamed] {
+            for arg in [U8, U16, Ty::Named(G_N, vec![])] {
+                for extra in [None, Some(Ty::Prim(Prim::Bool))] {
+                    let mut fields = vec![crate::spm::Field::new(arg.clone())];
+                    if let Some(e) = &extra {
+                        fields.push(crate::spm::Field::new(e.clone()));
+                    }
+                    fields.push(crate::spm::Field::new(Ty::Phantom(b(Ty::Param(0)))));
+                    let gs = GenState { form, params: ParamForm::One, fields, insts: vec![vec![arg.clone()]] };
+                    states.push(js(json!({"prog": serde_json::to_value(gs.program()).unwrap(), "seeds": seeds, "all_settings": true})));
+                }
+            }
+        }
+    }
     // the spelling variant `codec::Compact<..>` of every D-arms type that mentions a Compact
     {
         fn mentions_compact(t: &Ty) -> bool {
